@@ -1,16 +1,16 @@
 SPECIFICATION Spec
 CONSTANTS
   WL <- WL_two
-  Cfg <- Cfg_multi
-  MaxTick = 2
-  MaxAsg = 2
+  Cfg <- Cfg_long
+  MaxTick = 3
+  MaxAsg = 1
   MaxOps = 2
   CpuChoices = {1,2}
-  RamChoices = {1,3}
-  PoolChoices = {1,2,3}
+  RamChoices = {1,2,3}
+  PoolChoices = {1,2}
   CollapseCrash = TRUE
   Admissible = FALSE
-  CrossPipe = FALSE
+  CrossPipe = TRUE
 INVARIANT C01_ParentsDone
 INVARIANT C02_OneLiveContainer
 INVARIANT C02_StatesMatchContainers
